@@ -44,7 +44,8 @@ def _run(seed):
 
 
 def search(seed, tier, obligation, hints):
-    n = 4000 if tier == "quick" else 60000
+    # the bounded stand-in of the quick tier samples 4000 histories; a witness search that follows a failed obligation looks further
+    n = (4000 if (obligation or "").startswith("bounded:") else 20000) if tier == "quick" else 60000
     return drivers.search_seeds(INSTALL, _run, range(seed * 1000000, seed * 1000000 + n), {"driver": "matching rounds"})
 
 
